@@ -160,11 +160,11 @@ func init() {
 	}
 	propSpecs["C08"] = &PropSpec{
 		ID: "C08",
-		Rule: "each run = 6-36 operations mixing Set/SetUint64/Get (raft keys, binary keys, empty / nil / 1B-60KiB values, 1B-32KiB keys) with appends, truncations and clean reopens, plus 0-3 process crashes at seam calls inside Sets, appends, truncations and the background rotation, and 0-2 injected meta-store errors on SetStable (fail-before / fail-after) and GetStable; a third of the non-empty values recur (same bytes for the same key and size); backend = the real metadb.BoltMetaDB (two buckets, one write txn per Set/CommitState) on a tmpfs directory behind the seam wrapper. Oracle: stable model after every Get and after every reopen/recovery (in-flight Set applied or not), log model untouched by stable ops and vice versa. " +
+		Rule: "each run = 6-36 operations mixing Set/SetUint64/Get (raft keys, binary keys, empty / nil / 1B-60KiB values, 1B-32KiB keys) with appends, truncations and clean reopens, plus 0-3 process crashes at seam calls inside Sets, appends, truncations and the background rotation, and 0-2 injected meta-store errors on SetStable (fail-before / fail-after) and GetStable; a third of the non-empty values recur (same bytes for the same key and size); a quarter of the runs are the concurrent half: the C06 workload (writer with rotations and truncations, 1-4 readers) with a stable-store client task beside it whose Gets must return its own latest acknowledged Set; backend = the real metadb.BoltMetaDB (two buckets, one write txn per Set/CommitState) on a tmpfs directory behind the seam wrapper. Oracle: stable model after every Get and after every reopen/recovery (in-flight Set applied or not), log model untouched by stable ops and vice versa. " +
 			"Non-trivial = a crash fired or (acknowledged append and reopen); distinct = crash signatures / op-sequence signatures.",
 		Components:     "real: wal, segment, metadb.BoltMetaDB + bbolt (on tmpfs); stub: fs.FS -> simulated disk; power loss of bbolt's own file is not simulated (bbolt trusted)",
 		Assumptions:    []string{"bbolt's crash safety is trusted; only process crashes (between MetaStore calls) are injected for the metadata file"},
-		RequiredProbes: []string{"clean_reopens", "recoveries", "seam_SetStable", "seam_GetStable"},
+		RequiredProbes: []string{"clean_reopens", "recoveries", "seam_SetStable", "seam_GetStable", "concurrent_stable_sets", "concurrent_stable_gets"},
 		RequiredFired:  []string{"err_before_SetStable", "err_after_SetStable", "err_before_GetStable", "crash_mid_SetStable"},
 		QuickS:         45, ThoroughS: 600,
 	}
